@@ -447,7 +447,9 @@ def plan_lost_after_claim(h: History) -> list[dict[str, Any]]:
             continue
         if r["kind"] == "stage" and r["old"] == "NOT_STARTED" and r["new"] == "RUNNING":
             claims[mid] = r
-        elif mid in claims and (r["kind"] in ("q_ins", "pm_ins") or (r["kind"] == "stage" and r["row_id"] == claims[mid]["row_id"])):
+        elif mid in claims and r["kind"] == "stage" and r["row_id"] == claims[mid]["row_id"]:
+            # the plan commit always stores the claimed stage again (the processor-level processed mark that
+            # follows every handler return does not count)
             follow[mid] = follow.get(mid, 0) + 1
     for mid, r in claims.items():
         if follow.get(mid, 0) == 0 and mid in acked:
